@@ -140,9 +140,16 @@ def run_walk(payload):
     import types
     got_args = []
 
+    class Opaque:
+        secret = "host"
+
+    RETURNS = {"tuple": (1, 2), "bytes": b"ab", "object": Opaque(), "class": Opaque, "lambda": (lambda: Opaque()), "set": {1},
+               "nested": [(1, 2), {"k": Opaque()}, [b"x"]], "gen": (i for i in range(2)), "complex": 1j, "none": None, "int": 1}
+    kind = payload.get("host_returns", "int")
+
     def hostfn(*a):
         got_args.extend(a)
-        return 1
+        return RETURNS[kind]
 
     def setup(ctx):
         ctx._globals["hostfn"] = ctx._to_js(hostfn)
@@ -156,7 +163,8 @@ def run_walk(payload):
         if isinstance(v, (types.FunctionType, types.MethodType, types.BuiltinFunctionType)):
             if isinstance(v, types.MethodType):
                 mod = getattr(v.__func__, "__module__", "") or ""
-            return mod.startswith("microjs") or mod.startswith("mc.") or getattr(v, "__wrapped__", None) is hostfn or v is hostfn
+            return (mod.startswith("microjs") or mod.startswith("mc.") or getattr(v, "__wrapped__", None) is hostfn or v is hostfn
+                    or (getattr(v, "__wrapped__", None) is not None and getattr(v, "__wrapped__") is RETURNS.get(kind)))
         return isinstance(v, getattr(V, "JSBoundMethod", ())) or isinstance(v, getattr(V, "JSCallableObject", ()))
 
     stack = [("global." + k, v) for k, v in ctx._globals.items()]
@@ -212,6 +220,8 @@ def run_walk(payload):
                 rs += [(path + "." + str(k), x) for k, x in v.items()]
             elif isinstance(v, ALLOWED_PY_RESULT) or isinstance(v, (V.JSFunction, V.JSObject)) or v is hostfn or is_native(v):
                 continue
+            elif callable(v) and v is RETURNS.get(kind):
+                continue        # a callable the embedder's own function handed out: exposed by the embedder, not an engine internal
             else:
                 bad.append("%s handed to Python is a %s" % (path, type(v).__name__))
     except e._errors.JSError:
@@ -247,6 +257,11 @@ WALK_EXTRA = [
 
 def _walk_cases():
     out = [("walk after: " + name, {"src": src, "result": res}) for name, src, res in WALK_EXTRA]
+    for kind in ("tuple", "bytes", "object", "class", "lambda", "set", "nested", "gen", "complex", "none"):
+        src = ("var h = hostfn(); var keep = [h, {k: h}]; var viaCall = [1].map(hostfn); var viaMethod = ({m: hostfn}).m(); "
+               "var t = typeof h; var called; try { called = typeof h === 'function' ? h() : 'n/a' } catch (e) { called = 'threw' }")
+        out.append(("walk after: exposed callable returning a Python %s" % kind,
+                    {"src": src, "result": "[h, keep, viaCall, viaMethod, called]", "host_returns": kind}))
     from mc.gen import programs as P
     import itertools
     n = 0
